@@ -160,7 +160,7 @@ def run(ctx):
         return
     cases, meta = [], []
     n_alt_bad = 0
-    kinds_hist = {"pair": 0, "rand": 0}
+    kinds_hist = {"pair": 0, "rand": 0, "look": 0}
     for line in out.split("\n"):
         p = line.split("\t")
         if len(p) != 7 or p[0] != "A":
@@ -269,6 +269,39 @@ def run(ctx):
                       {"items": bmeta[i][0], "parser": bmeta[i][1], "program": unesc(bmeta[i][2])})
     if bmeta:
         ctx.add_samples([{"value_block_items": bmeta[len(bmeta) // 2][0][:300], "parser": bmeta[len(bmeta) // 2][1], "text": unesc(bmeta[len(bmeta) // 2][2])[:200]}])
+
+    # ---------------------------------------------------------------- statement-sequence parser contract
+    rc, out = vlib.sh([hx, "--mode", "seq", "--seed", str(ctx.seed), "--n", "3000" if quick else "40000"], timeout=600)
+    if rc != 0:
+        ctx.violation("c15:harness-crash:seq", "hx_asi --mode seq crashed", {"tail": out[-2000:]})
+        return
+    scases, smeta, shist = [], [], {}
+    for line in out.split("\n"):
+        p = line.split("\t")
+        if len(p) != 5 or p[0] != "Q":
+            continue
+        ob = p[3]
+        shist[ob.split()[0]] = shist.get(ob.split()[0], 0) + 1
+        if ob in ("Shape", "Panic"):
+            ctx.violation("c15:statement-sequence:" + ob.lower(), "the parser panicked on / produced an unexpected AST shape for a statement sequence",
+                          {"items": p[2], "program": unesc(p[4])})
+            continue
+        t = p[2].split(None, 2)
+        scases.append((f"({t[1]}, {t[2]})", "(" + ob + ")" if ob.startswith("Some") else ob))
+        smeta.append((p[2], ob, p[4]))
+        distinct.add("seq:" + p[2])
+    total += len(scases)
+    dist["statement_sequence_cases"] = shist
+    fails, err = vlib.coq_eval_cases("c15s", IMPORTS, "fun q => parse_sequence (fst q) (snd q)", "optnat_eqb", scases, shard=500)
+    if err:
+        ctx.broken.append("correspondence C15 (statement sequences): model evaluation failed")
+        ctx.log(err[-3000:])
+    if fails:
+        ctx.broken.append(f"correspondence C15 (statement sequences): parser model and real parser differ on {len(fails)} item lists")
+        ctx.cov["statement_sequence_disagreements"] = [{"items": smeta[i][0][:300], "parser": smeta[i][1], "text": unesc(smeta[i][2])[:300]} for i in fails[:6]]
+        i = fails[0]
+        ctx.violation("c15:model-mismatch:statement-sequence", "the real parser's result for a statement sequence differs from the sequence model",
+                      {"items": smeta[i][0], "parser": smeta[i][1], "program": unesc(smeta[i][2])})
 
     # ---------------------------------------------------------------- programs vs re-layouts (direct oracle)
     nprog = 500 if quick else 5000
